@@ -188,19 +188,19 @@ def step (s : St) (line : String) : St × Array String :=
         skKind := skKind, ikKind := ikKind }
       let (spc, swc) := caps skKind
       let (ipc, iwc) := caps ikKind
-      let (_, w) := newFactory p spc swc ipc iwc s.w
+      let (_, w) := applyOp s.w (.newFactory p spc swc ipc iwc)
       pure ("res=ok", { s with w := w, facOpen := s.facOpen.push true,
                                 mon := s.mon.addFactory p })
     | some "sess" =>
       let f := arg 1
       let fac := s.w.facs.getD f default
       let (ipc, iwc) := caps fac.pol.ikKind
-      let (_, w) := getSession f (arg 3) ipc iwc s.w
+      let (_, w) := applyOp s.w (.getSession f (arg 3) ipc iwc)
       some ("res=ok", { s with w := w, sessOpen := s.sessOpen.push true, mon := s.mon.addSession f (arg 3) })
     | some "enc" =>
-      let (r, w) := encrypt (arg 1) (arg 2) faults true s.w
+      let (r, w) := applyOp s.w (.encrypt (arg 1) (arg 2) faults)
       let (obs, drrs) := match r with
-        | .ok d =>
+        | .record d =>
           let part := (w.sessions.getD (arg 1) default).part
           let ik := ((d.key.bind (·.parent)).map (·.created)).getD 0
           let skc : String := match (d.key.bind (·.parent)).bind (findRow w.store) with
@@ -208,7 +208,7 @@ def step (s : St) (line : String) : St × Array String :=
             | none => "-"
           (s!"res=ok drr={s.drrs.size} ik={ik - t0} skc={skc} chain={chainPresent w d}", s.drrs.push (d, arg 2, part))
         | .error .panic => ("res=panic", s.drrs)
-        | .error _ => ("res=err", s.drrs)
+        | _ => ("res=err", s.drrs)
       let (t, w) := tail w
       some (obs ++ t, { s with w := w, drrs := drrs })
     | some "dec" =>
@@ -216,48 +216,44 @@ def step (s : St) (line : String) : St × Array String :=
       | none => none
       | some (d, pay, _) =>
         let d' := mutate s.drrs d ((kv ws "mut").getD "-")
-        let (r, w) := decrypt (arg 1) d' faults true s.w
+        let (r, w) := applyOp s.w (.decrypt (arg 1) d' faults)
         let obs := match r with
-          | .ok p => if p == pay then s!"res=ok pay={pay}" else "res=ok pay=other"
+          | .payload p => if p == pay then s!"res=ok pay={pay}" else "res=ok pay=other"
           | .error .panic => "res=panic"
-          | .error _ => "res=err"
+          | _ => "res=err"
         let (t, w) := tail w
         some (obs ++ t, { s with w := w })
     | some "cls" =>
-      let (_, w) := (do beginOp []; closeSession (arg 1)) s.w
+      let (_, w) := applyOp s.w (.closeSession (arg 1))
       let (t, w) := tail w
       some ("res=ok" ++ t, { s with w := w, sessOpen := s.sessOpen.setIfInBounds (arg 1) false })
     | some "fcls" =>
-      let (_, w) := (do beginOp []; closeFactory (arg 1)) s.w
+      let (_, w) := applyOp s.w (.closeFactory (arg 1))
       let (t, w) := tail w
       some ("res=ok" ++ t, { s with w := w, facOpen := s.facOpen.setIfInBounds (arg 1) false })
     | some "adv" =>
-      let d : Int := ((ws.getD 1 "").toInt?).getD 0
-      let (_, w) := advance d s.w
+      let (_, w) := applyOp s.w (.advance (arg 1))
       some ("res=ok", { s with w := w })
     | some "rev" => do
       let k ← parseKid (ws.getD 1 "")
       let c : Int := ((ws.getD 2 "").toInt?).getD 0 + t0
       if (findRow s.w.store ⟨k, c⟩).isSome then
-        let (_, w) := revoke ⟨k, c⟩ s.w
+        let (_, w) := applyOp s.w (.revoke ⟨k, c⟩)
         pure ("res=ok", { s with w := w })
       else pure ("res=none", s)
     | some "rowmut" => do
       let k ← parseKid (ws.getD 1 "")
       let c : Int := ((ws.getD 2 "").toInt?).getD 0 + t0
       if (findRow s.w.store ⟨k, c⟩).isSome then
-        let f : Row → Row := match ws.getD 3 "" with
-          | "noparent" => fun r => { r with parent := none }
-          | _ => fun r => { r with enc := .junk 2 }
-        let w := { s.w with store := s.w.store.map fun r => if r.kid = k ∧ r.created = c then f r else r }
+        let (_, w) := applyOp s.w (.corruptRow ⟨k, c⟩ (ws.getD 3 "" == "noparent"))
         pure ("res=ok", { s with w := w })
       else pure ("res=none", s)
     | some "end" =>
       -- close what is still open: sessions first, then factories
       let w := (List.range s.sessOpen.size).foldl (fun w i =>
-        if s.sessOpen[i]! then (closeSession i w).2 else w) s.w
+        if s.sessOpen[i]! then (applyOp w (.closeSession i)).2 else w) s.w
       let w := (List.range s.facOpen.size).foldl (fun w i =>
-        if s.facOpen[i]! then (closeFactory i w).2 else w) w
+        if s.facOpen[i]! then (applyOp w (.closeFactory i)).2 else w) w
       some (s!"res=ok | {secLine w}", { s with w := w })
     | _ => none
   match r with
